@@ -210,6 +210,33 @@ class FsModel {
     return im;
   }
 
+  // When the crash point admits few images (choice of persisted directory-operation count x {synced, written} length per
+  // file with unsynced bytes), enumerate them all.  Returns false when the product exceeds `limit`.
+  bool enumerate_all(size_t limit, std::vector<FsImage> *out) const {
+    size_t nd = dirops.size() - durable_dirops + 1;
+    if (nd > limit) return false;
+    for (size_t k = durable_dirops; k <= dirops.size(); k++) {
+      FsNames ns = names_at(k);
+      std::vector<int> open_files;
+      for (auto &p : ns) if (inodes[p.second].written > inodes[p.second].synced) open_files.push_back(p.second);
+      std::sort(open_files.begin(), open_files.end());
+      open_files.erase(std::unique(open_files.begin(), open_files.end()), open_files.end());
+      if (open_files.size() > 6) return false;
+      size_t combos = (size_t)1 << open_files.size();
+      if (out->size() + combos > limit) return false;
+      for (size_t mask = 0; mask < combos; mask++) {
+        FsImage im;
+        im.names = ns;
+        for (auto &p : ns) im.len[p.second] = inodes[p.second].synced;
+        for (size_t b = 0; b < open_files.size(); b++) if (mask & ((size_t)1 << b)) im.len[open_files[b]] = inodes[open_files[b]].written;
+        im.kind = "enumerated";
+        finish(im);
+        out->push_back(im);
+      }
+    }
+    return true;
+  }
+
   void finish(FsImage &im) const {
     uint64_t h = 1469598103934665603ULL;
     for (auto &p : im.names) {
